@@ -15,7 +15,53 @@ func Catalogue(prop, tier string) []Cfg {
 		}
 		out = append(out, c)
 	}
+	pc := func(disc string, p []uint, h uint, div string, cp []int, n []int, env string, mode string) Cfg {
+		return Cfg{Harness: "prio", Disc: disc, P: p, H: h, Div: div, Cap: cp, N: n, Env: env, Mode: mode, Bound: -1, Graph: true}
+	}
+	prioCore := func() {
+		// v2, receiver+releaser environment
+		add(pc("v2", []uint{1}, 1, "fair", []int{2}, []int{2}, "rr", ""))
+		add(pc("v2", []uint{1}, 2, "fair", []int{3}, []int{3}, "rr", ""))
+		add(pc("v2", []uint{2, 1}, 2, "fair", []int{2}, []int{2}, "rr", ""))
+		add(pc("v2", []uint{2, 1}, 2, "rate", []int{2}, []int{2}, "rr", "closeasc"))
+		add(pc("v2", []uint{2, 1}, 3, "rate", []int{3}, []int{3, 2}, "rr", ""))
+		add(pc("v2", []uint{2, 1}, 3, "low", []int{2}, []int{2, 3}, "rr", ""))
+		add(pc("v2", []uint{2, 1}, 2, "fair", []int{0}, []int{2}, "rr", ""))
+		add(pc("v2", []uint{2, 1}, 2, "rate", []int{0, 2}, []int{2, 2}, "rr", ""))
+		add(pc("v2", []uint{2, 1}, 2, "fair", []int{1}, []int{3, 1}, "rr", ""))
+		add(pc("v2", []uint{3, 2, 1}, 3, "fair", []int{2}, []int{2}, "rr", "preclosed"))
+		add(pc("v2", []uint{3, 2, 1}, 4, "rate", []int{2}, []int{2, 1, 1}, "rr", "preclosed"))
+		// v2, handler pool (README style), one handler more than capacity
+		add(pc("v2", []uint{2, 1}, 2, "fair", []int{2}, []int{2}, "pool", ""))
+		add(pc("v2", []uint{2, 1}, 2, "rate", []int{2}, []int{2, 1}, "pool", "extra"))
+		// simple v2
+		add(pc("s2", []uint{2, 1}, 2, "fair", []int{2}, []int{2, 1}, "", ""))
+		// v1
+		add(pc("v1", []uint{2, 1}, 2, "fair", []int{2}, []int{2}, "rr", ""))
+		c := pc("v1", []uint{2, 1}, 2, "rate", []int{2}, []int{2}, "pool", "")
+		c.OutCap, c.FbCap = 1, 1
+		add(c)
+		c = pc("v1", []uint{2, 1}, 3, "fair", []int{0, 2}, []int{2, 2}, "rr", "")
+		c.OutCap = 1
+		add(c)
+		// simple v1
+		add(pc("s1", []uint{2, 1}, 2, "fair", []int{2}, []int{1, 1}, "", ""))
+		if !quick {
+			add(pc("v2", []uint{3, 2, 1}, 3, "fair", []int{2}, []int{2}, "rr", ""))
+			add(pc("v2", []uint{3, 2, 1}, 6, "rate", []int{3}, []int{3, 2, 1}, "rr", "preclosed"))
+			add(pc("v2", []uint{3, 2, 1}, 4, "rate", []int{2}, []int{2}, "rr", ""))
+			add(pc("v2", []uint{3, 2, 1}, 3, "low", []int{0, 1, 2}, []int{2}, "rr", ""))
+			add(pc("v2", []uint{7, 5, 3, 2}, 4, "fair", []int{1}, []int{1}, "rr", "preclosed"))
+			add(pc("v2", []uint{2, 1}, 3, "rate", []int{3}, []int{3}, "pool", "extra"))
+			add(pc("s2", []uint{2, 1}, 2, "fair", []int{2}, []int{2}, "", ""))
+			add(pc("s2", []uint{2, 1}, 3, "rate", []int{0, 2}, []int{2}, "", ""))
+			add(pc("v1", []uint{3, 2, 1}, 3, "fair", []int{2}, []int{2}, "rr", "preclosed"))
+			add(pc("s1", []uint{2, 1}, 2, "fair", []int{2}, []int{2}, "", ""))
+		}
+	}
 	switch prop {
+	case "C01", "C02", "C07", "C19":
+		prioCore()
 	case "C03":
 		for _, disc := range []string{"join2", "unite2", "join1"} {
 			for _, j := range []int{1, 2, 3} {
